@@ -111,9 +111,12 @@ class Prop:
                 ref[(name, tbq)] = d
                 if tbq == 0:
                     for dl in d[0]:
-                        parts = dl[0]
-                        oneshot_ops.append('decode 0 ' + ' '.join(p.hex() for p in bytes.fromhex(parts).split(b'\n')))
+                        parts = bytes.fromhex(dl[0]).split(b'\n')
+                        oneshot_ops.append('decode 0 ' + ' '.join(p.hex() for p in parts))
                         oneshot_meta.append((name, dl))
+                        if len(parts) > 1:      # any order of the parts
+                            oneshot_ops.append('decode 0 ' + ' '.join(p.hex() for p in parts[::-1]))
+                            oneshot_meta.append((name, dl))
                 continue
             r = ref[(name, tbq)]
             if d[0] != r[0]:
